@@ -1107,9 +1107,7 @@ where
     #[inline]
     async fn read_bytes_vec(&mut self) -> Result<Vec<u8>, ThriftException> {
         let size = self.read_varint_async::<u32>().await? as usize;
-        // FIXME: use maybe_uninit?
-        let mut v = vec![0; size];
-        self.reader.read_exact(&mut v).await?;
+        let v = super::rw_ext::read_exact_vec(&mut self.reader, size).await?;
         Ok(v)
     }
 
